@@ -13,10 +13,10 @@ cp $DEMO $W/tests/
 DN=$(basename $DEMO .rs)
 cd $W
 export CARGO_TARGET_DIR=/tmp/confirm-target
-r_clean=$(cargo test --offline --test $DN 2>&1 | grep -E "^test result" | tail -1)
+r_clean=$(cargo test --offline ${SEED_FEATURES:+--features $SEED_FEATURES} --test $DN 2>&1 | grep -E "^test result" | tail -1)
 git apply $SRC/patch.diff || { echo "patch does not apply"; exit 2; }
 r_base=$(cargo test --offline --no-fail-fast --lib --test chunked-acceptance --test entity-acceptance 2>&1 | grep -E "^test result" | tr '\n' ' ')
-r_mut=$(cargo test --offline --test $DN 2>&1 | grep -E "^test result" | tail -1)
+r_mut=$(cargo test --offline ${SEED_FEATURES:+--features $SEED_FEATURES} --test $DN 2>&1 | grep -E "^test result" | tail -1)
 echo "demo on clean tree : $r_clean"
 echo "35 tests on mutant : $r_base"
 echo "demo on mutant     : $r_mut"
